@@ -874,7 +874,7 @@ std::string Interpret::printDefinitionSmtlib(PTRef tr, PTRef val) {
 
 std::string Interpret::printDefinitionSmtlib(TemplateFunction const & templateFun) const {
     std::stringstream ss;
-    ss << "  (define-fun " << templateFun.getName() << " (";
+    ss << "  (define-fun " << logic->protectName(templateFun.getName(), false) << " (";
     vec<PTRef> const & args = templateFun.getArgs();
     for (int i = 0; i < args.size(); i++) {
         auto sortString = logic->sortToString(logic->getSortRef(args[i]));
